@@ -1802,10 +1802,48 @@ impl PhysicalPlanner {
             }
 
             LogicalPlan::Values(node) => {
-                // Evaluate constant expressions and create a batch
+                // Evaluate each constant row expression once against a one-row
+                // batch of no columns (the same trick EmptyRelation uses), then
+                // stack the cells column by column into a single batch.
+                use arrow::array::{new_null_array, Array, ArrayRef};
+                use arrow::record_batch::{RecordBatch, RecordBatchOptions};
                 let schema = plan_schema_to_arrow(&node.schema);
-                // For now, return empty - proper implementation needs expression evaluation
-                let exec = MemoryTableExec::new("values", schema, vec![], None);
+                let opts = RecordBatchOptions::new().with_row_count(Some(1usize));
+                let one_row =
+                    RecordBatch::try_new_with_options(Arc::new(Schema::empty()), vec![], &opts)?;
+                let mut cells: Vec<Vec<ArrayRef>> = vec![Vec::new(); schema.fields().len()];
+                for row in &node.values {
+                    if row.len() != cells.len() {
+                        return Err(QueryError::Plan(
+                            "VALUES lists must all be the same length".into(),
+                        ));
+                    }
+                    for (i, expr) in row.iter().enumerate() {
+                        let ty = schema.field(i).data_type();
+                        let cell = crate::physical::operators::evaluate_expr(&one_row, expr)?;
+                        cells[i].push(if cell.data_type() == ty {
+                            cell
+                        } else if cell.data_type().is_null() {
+                            new_null_array(ty, 1)
+                        } else {
+                            return Err(QueryError::NotImplemented(format!(
+                                "VALUES column {} mixes types {ty} and {}",
+                                i + 1,
+                                cell.data_type()
+                            )));
+                        });
+                    }
+                }
+                let mut batches = vec![];
+                if !node.values.is_empty() {
+                    let mut columns = Vec::with_capacity(cells.len());
+                    for c in &cells {
+                        let parts: Vec<&dyn Array> = c.iter().map(|a| a.as_ref()).collect();
+                        columns.push(arrow::compute::concat(&parts)?);
+                    }
+                    batches.push(RecordBatch::try_new(schema.clone(), columns)?);
+                }
+                let exec = MemoryTableExec::new("values", schema, batches, None);
                 Ok(Arc::new(exec))
             }
 
